@@ -56,7 +56,7 @@ def reorderH (j : Json) : Except String Json := do
   let cls ← parseCls (← J.field j "cls")
   let m ← J.natList (← J.field j "map")
   let a ← J.op (← J.field j "a")
-  .ok (J.ofOp (reorder tol cls m a))
+  .ok (J.obj [("r", J.ofOp (reorder tol cls m a)), ("num_modes", J.ofNat (defaultNumModes a))])
 
 def specNormalH (j : Json) : Except String Json := do
   let a ← J.op (← J.field j "a")
